@@ -163,6 +163,26 @@ def r2_shared_state(rule, root=None):
         rule.bad("mmapwriter|owner", "MmapWriter.mmap must be an owned Mmap, found %s" % f.get("mmap"), A.where(MMAP, st))
 
 
+def r_token_raw(rule, root=None):
+    """CancelToken::into_raw hands one strong count to the raw pointer (Arc::into_raw of the owned Arc) and
+    from_raw takes exactly that count back (Arc::from_raw): a pointer made without a count (Arc::as_ptr) is
+    freed under the owner that still holds the token, and its flag is then another run's flag"""
+    CFG = "fidget-core/src/render/config.rs"
+    a = A.find_fn(CFG, "into_raw", self_ty="CancelToken", root=root)
+    b = A.find_fn(CFG, "from_raw", self_ty="CancelToken", root=root)
+    ta = str(txt(A.unblock(A.inline_lets_deep(a["body"]))))
+    calls_b = [str(txt(c)) for c in A.find(b["body"], "Call") if (A.path_segs(c["func"]) or [])[-2:] == ["Arc", "from_raw"]]
+    takes_self = bool(a["sig"]["inputs"]) and isinstance(a["sig"]["inputs"][0], dict) and a["sig"]["inputs"][0].get("self", "").replace(" ", "") in ("self", "mutself")
+    if ta == "Arc::into_raw(self.0)" and takes_self:
+        rule.ok("CancelToken::into_raw leaks the owned Arc's count into the pointer", file=CFG, line=a["ln"])
+    else:
+        rule.bad("token|into_raw", "CancelToken::into_raw must be Arc::into_raw(self.0) on the consumed token (found `%s`): from_raw reclaims a strong count, so the pointer has to carry one" % ta[:60], A.where(a))
+    if len(calls_b) == 1:
+        rule.ok("CancelToken::from_raw reclaims that count with Arc::from_raw", file=CFG, line=b["ln"])
+    else:
+        rule.bad("token|from_raw", "CancelToken::from_raw must rebuild the Arc with Arc::from_raw(ptr)", A.where(b))
+
+
 def r1c_mt_precondition(rule, root=None):
     """build_inner_mt unwraps the (parent, slot) index of every task cell; only cells created by its split loop
     have one, so the loop must run at least once for every input that reaches the function"""
@@ -221,6 +241,22 @@ def r5_pool_independence(rule, root=None):
         rule.ok("the work queue is split only while it is shorter than min(8^depth, 10 x threads)", file=OCT, line=ws[0]["ln"])
     else:
         rule.bad("pool|split", "build_inner_mt must stop splitting as soon as the queue has min(8^depth, 10 x threads) cells (`while todo.len() < target_count`): one split more goes below the requested depth in one corner only when a pool is used", A.where(m))
+    # vertices go back to model space once everything that can still create a vertex has run: the pooled
+    # path's fix-up walk (check_done -> try_collapse) adds vertices after the per-task octrees are merged
+    makers = ("recurse", "check_done", "try_collapse", "leaf")
+    n_tr = 0
+    for name in ("build", "build_inner", "build_inner_mt"):
+        f_ = A.find_fn(OCT, name, self_ty="Octree", root=root)
+        seq = A.linear_calls(f_)
+        tr = [c["i"] for c in seq if c["method"] == "transform_point"]
+        n_tr += len(tr)
+        late = [c for c in seq if tr and c["i"] > tr[0] and c["method"] in makers]
+        if late:
+            rule.bad("pool|model-space|%s" % name, "Octree::%s moves vertices to model space and then still calls `%s`, which can create vertices: those stay in [-1, +1] coordinates - with a pool only, since only the pooled path has a fix-up walk" % (name, late[0]["method"]), A.where(f_, late[0]["node"]))
+    if n_tr == 0:
+        rule.lost("the transform of the finished octree's vertices back to model space (world_to_model.transform_point)")
+    else:
+        rule.ok("vertices are moved to model space after the last step that can create one, on both build paths")
     rc = A.find_fn(OCT, "recurse", self_ty="OctreeBuilder", root=root)
     ifs = [i for i in A.find(rc["body"], "If") if "max_depth" in A.unparse(i["cond"])]
     if len(ifs) == 1 and A.norm_cond(str(txt(A.strip(ifs[0]["cond"])))) in ("cell.depth==self.max_depthasusize", "cell.depth==(self.max_depthasusize)", "self.max_depthasusize==cell.depth"):
@@ -244,6 +280,8 @@ def r5_pool_independence(rule, root=None):
 def run(ctx):
     r = ctx.rule("R1", "an abort originates only from the cancel token (or a child's abort) and turns the whole result into None", 16)
     ctx.guarded(r, r1_cancellation)
+    r = ctx.rule("R1d", "a cancel token sent through a raw pointer carries its own reference count there and back", 2)
+    ctx.guarded(r, r_token_raw)
     r = ctx.rule("R1c", "the pooled meshing path is reached only with inputs for which every task has a parent slot", 1)
     ctx.guarded(r, r1c_mt_precondition)
     r = ctx.rule("R2", "shared-state inventory: vetted unsafe Send/Sync, only the cancel flag is interiorly mutable, JIT handles immutable", 14)
